@@ -47,6 +47,9 @@ def _table(rw):
     return {"seed": rw.getrandbits(31), "rows": rows, "cols": cols, "index": rw.choice(["int_sorted", "range", "int_sorted", "dt_sorted", "float_sorted"])}
 
 
+spec_force = {}
+
+
 def generate(run_seed, tier):
     rw = R.stream(run_seed, "workload")
     rf = R.stream(run_seed, "fs")
@@ -58,11 +61,15 @@ def generate(run_seed, tier):
     write = {"via": rw.choice(["to_parquet", "to_parquet", "direct"]), "write_index": rw.random() < 0.85,
              "write_metadata_file": rw.choice([None, True, False]), "order": rw.choice(["sorted", "reversed", "shuffled", "overlap"]),
              "world": S.World.draw(rs).to_json()}
+    if write["via"] == "direct":
+        # files written by pyarrow itself: keep the index named (an unnamed pandas index becomes the foreign
+        # column __index_level_0__, whose treatment by the two readers is outside the round-trip statement)
+        table["index_name"] = "idx"
     nullable = [c for c, k in table["cols"].items() if k in ("float_nan", "str_none")]
     reads = []
     for _ in range(rw.randint(2, 4 if tier == "quick" else 6)):
         reader = rw.choice(["fsspec", "arrow", "arrow"])
-        rd = {"reader": reader, "calculate_divisions": rw.random() < 0.5, "obs": rw.choice(["result", "result", "len", "head"])}
+        rd = {"reader": reader, "calculate_divisions": rw.random() < 0.5, "obs": rw.choice(["result", "result", "len"])}
         if rw.random() < 0.6:
             k = rw.randint(1, 3)
             rd["columns"] = rw.sample(sorted(table["cols"]), k)
@@ -73,6 +80,9 @@ def generate(run_seed, tier):
         if rd["obs"] == "head":
             rd["n"] = rw.choice([1, 3, 5])
         reads.append(rd)
+    if any(r["reader"] == "arrow" for r in reads) and not spec_force.get("arrow_with_metadata"):
+        # known finding KF-C18-arrow-metadata-file: the arrow reader fails (KeyError 'all_files') on datasets with a _metadata file
+        write["write_metadata_file"] = False
     spec = {"property": PROPERTY, "table": table, "files": files, "write": write, "reads": reads,
             "fs": {"seed": rf.getrandbits(30), "resolution": rf.choice([1, 1, 60, 3600]), "skew_at": rf.choice([None, None, 3, 7]), "skew_by": rf.choice([0, 5, 100]),
                    "permute": rf.random() < 0.8},
@@ -226,7 +236,12 @@ def _execute(spec, ses):
             return _done(_v("read_failed", "%s:compute:%s" % (kind, exc_signature(full.exc) if full.exc else full.cls), full.detail, read=ri), ses, counters, spec, faults)
         got = dict(full.obs)
         got["kinds"] = None
-        eq, why = obs_equal(exp_obs, got)
+        exp_cmp = exp_obs
+        if kind == "arrow" and not tspec.get("index_name") and not spec.get("compare_index_name_always"):
+            # known finding KF-C18-arrow-null-index-name: the arrow reader leaves an unnamed index named '__null_dask_index__'
+            got["index_names"] = None
+            exp_cmp = dict(exp_obs, index_names=None)
+        eq, why = obs_equal(exp_cmp, got)
         counters["roundtrips"] += 1
         if not eq and _roundtrip_comparable(written, w):
             return _done(_v("roundtrip", "%s:%s" % (kind, why.split(" ")[0]), "full read differs from what was written: " + why, read=ri), ses, counters, spec, faults)
@@ -348,7 +363,11 @@ def _execute(spec, ses):
             if out.cls == "ok":
                 go = dict(out.obs)
                 go["kinds"] = None
-                eq, why = obs_equal(exp2, go)
+                exp2c = exp2
+                if kind == "arrow" and not tspec.get("index_name") and not spec.get("compare_index_name_always"):
+                    go["index_names"] = None
+                    exp2c = dict(exp2, index_names=None)
+                eq, why = obs_equal(exp2c, go)
                 if not eq:
                     return _done(_v("stale_after_rewrite", "%s:%s" % (kind, why.split(" ")[0]),
                                     "a new read_parquet after the dataset was rewritten does not show the new contents: " + why), ses, counters, spec, faults)
@@ -412,7 +431,8 @@ def _division_truth(ses, r, world):
         lo, hi = p.index.min(), p.index.max()
         last = i == len(parts) - 1
         try:
-            ok = lo >= divs[i] and (hi <= divs[i + 1] if last else hi < divs[i + 1] or (hi == divs[i + 1] and divs[i] == divs[i + 1]))
+            # dask's convention for file statistics: the next partition may start at the previous maximum (duplicates at a border)
+            ok = lo >= divs[i] and hi <= divs[i + 1]
         except TypeError:
             continue
         if not ok:
